@@ -119,45 +119,39 @@ pub fn guard<F: FnOnce() -> String>(f: F) -> String {
 
 // ------------------------------------------------------------------ helpers
 
-/// Unit names of every quantity type in the MODEL's order, keyed by the Rust type name of the
+/// The unit variants of every quantity type in the MODEL's order, keyed by the `TypeId` of the
 /// unit enum (generated from the model's dump).  Operations address units by their index in the
-/// model's table and the harness resolves the index through the unit's NAME, so that an
-/// operation means the same unit on both sides even when `iter()` yields another order (the
-/// order itself is what the `reg` operation reports).
-fn model_names<U: Unit>() -> Option<&'static [&'static str]> {
-    static NAMES: std::sync::OnceLock<std::collections::HashMap<&'static str, &'static [&'static str]>> =
+/// model's table and the harness resolves the index to the enum VARIANT the model predicts for
+/// it, so that an operation means the same unit on both sides whatever `iter()`, `name()`,
+/// `symbol()` or the constants report (those are what the `reg` operation reports).
+fn model_units<U: Unit + 'static>() -> Option<&'static Vec<U>> {
+    static UNITS: std::sync::OnceLock<std::collections::HashMap<std::any::TypeId, Box<dyn std::any::Any + Send + Sync>>> =
         std::sync::OnceLock::new();
-    NAMES
-        .get_or_init(|| gen_dispatch::model_unit_names().into_iter().collect())
-        .get(std::any::type_name::<U>())
-        .copied()
+    UNITS
+        .get_or_init(|| gen_dispatch::model_units().into_iter().collect())
+        .get(&std::any::TypeId::of::<U>())
+        .and_then(|b| b.downcast_ref::<Vec<U>>())
 }
 
-pub fn unit_at<U: Unit>(i: usize) -> U {
-    match model_names::<U>() {
-        Some(names) => {
-            let n = *names.get(i).expect("unit index out of range");
-            U::iter().find(|u| u.name() == n).expect("unit of the model not in iter()")
-        }
+pub fn unit_at<U: Unit + 'static>(i: usize) -> U {
+    match model_units::<U>() {
+        Some(us) => *us.get(i).expect("unit index out of range"),
         None => U::iter().nth(i).expect("unit index out of range"),
     }
 }
 
-pub fn ix_of<U: Unit>(u: U) -> usize {
-    match model_names::<U>() {
-        Some(names) => {
-            let n = u.name();
-            names.iter().position(|m| *m == n).expect("unit not in the model")
-        }
+pub fn ix_of<U: Unit + 'static>(u: U) -> usize {
+    match model_units::<U>() {
+        Some(us) => us.iter().position(|m| *m == u).expect("unit not in the model"),
         None => U::iter().position(|v| v == u).expect("unit not in iter()"),
     }
 }
 
-pub fn qstr<Q: Quantity>(q: Q) -> String {
+pub fn qstr<Q: Quantity<UnitType: 'static>>(q: Q) -> String {
     format!("{} {}", ix_of(q.unit()), enc(q.amount()))
 }
 
-pub fn opt_ix<U: Unit>(u: Option<U>) -> String {
+pub fn opt_ix<U: Unit + 'static>(u: Option<U>) -> String {
     match u {
         Some(u) => ix_of(u).to_string(),
         None => "none".into(),
@@ -198,7 +192,7 @@ pub fn cmp_group<Q: PartialEq + PartialOrd>(x: &Q, y: &Q) -> String {
 /// `consts`: (constant name, the constant's value) as predicted by the model.
 pub fn reg_any<Q>(consts: &[(&str, Q::UnitType)], scale: &dyn Fn(Q::UnitType) -> String, refix: &dyn Fn() -> String, kind: &str) -> String
 where
-    Q: Quantity,
+    Q: Quantity<UnitType: 'static>,
     Q::UnitType: std::fmt::Debug,
 {
     let units: Vec<Q::UnitType> = Q::iter_units().collect();
@@ -230,7 +224,7 @@ where
 /// Operations shared by every quantity type (with or without reference unit).
 pub fn common_ops<Q>(op: &str, a: &[&str]) -> Option<String>
 where
-    Q: Quantity
+    Q: Quantity<UnitType: 'static>
         + Add<Q, Output = Q>
         + Sub<Q, Output = Q>
         + Div<Q, Output = AmountT>
@@ -319,7 +313,7 @@ where
 /// Comparison operators (not generated for single-unit types).
 pub fn cmp_ops<Q>(op: &str, a: &[&str]) -> Option<String>
 where
-    Q: Quantity + PartialEq + PartialOrd,
+    Q: Quantity<UnitType: 'static> + PartialEq + PartialOrd,
 {
     let u = |s: &str| unit_at::<Q::UnitType>(s.parse().expect("unit index"));
     if op != "cmp" {
@@ -335,7 +329,7 @@ where
 /// what deserialising the text gives back.
 pub fn ser_ops<Q>(op: &str, a: &[&str]) -> Option<String>
 where
-    Q: Quantity + serde::Serialize + serde::de::DeserializeOwned,
+    Q: Quantity<UnitType: 'static> + serde::Serialize + serde::de::DeserializeOwned,
     Q::UnitType: serde::Serialize + serde::de::DeserializeOwned,
 {
     if op != "ser" {
@@ -379,7 +373,7 @@ where
 pub fn ref_ops<Q>(op: &str, a: &[&str]) -> Option<String>
 where
     Q: HasRefUnit,
-    Q::UnitType: LinearScaledUnit,
+    Q::UnitType: LinearScaledUnit + 'static,
 {
     let u = |s: &str| unit_at::<Q::UnitType>(s.parse().expect("unit index"));
     Some(match op {
@@ -405,7 +399,7 @@ where
 pub fn reg_ref<Q>(consts: &[(&str, Q::UnitType)]) -> String
 where
     Q: HasRefUnit,
-    Q::UnitType: LinearScaledUnit + std::fmt::Debug,
+    Q::UnitType: LinearScaledUnit + 'static + std::fmt::Debug,
 {
     let refix = || {
         let r = <Q as HasRefUnit>::REF_UNIT;
@@ -422,7 +416,7 @@ where
 
 pub fn reg_noref<Q>(consts: &[(&str, Q::UnitType)], kind: &str) -> String
 where
-    Q: Quantity,
+    Q: Quantity<UnitType: 'static>,
     Q::UnitType: std::fmt::Debug,
 {
     reg_any::<Q>(consts, &|_| "-".to_string(), &|| "-".to_string(), kind)
@@ -431,9 +425,9 @@ where
 /// derived operators, four owned/borrowed forms
 pub fn dmul<L, R, O>(a: &[&str]) -> String
 where
-    L: Quantity + Mul<R, Output = O>,
-    R: Quantity,
-    O: Quantity,
+    L: Quantity<UnitType: 'static> + Mul<R, Output = O>,
+    R: Quantity<UnitType: 'static>,
+    O: Quantity<UnitType: 'static>,
     for<'x> &'x L: Mul<R, Output = O> + Mul<&'x R, Output = O>,
     for<'x> L: Mul<&'x R, Output = O>,
 {
@@ -450,9 +444,9 @@ where
 
 pub fn ddiv<L, R, O>(a: &[&str]) -> String
 where
-    L: Quantity + Div<R, Output = O>,
-    R: Quantity,
-    O: Quantity,
+    L: Quantity<UnitType: 'static> + Div<R, Output = O>,
+    R: Quantity<UnitType: 'static>,
+    O: Quantity<UnitType: 'static>,
     for<'x> &'x L: Div<R, Output = O> + Div<&'x R, Output = O>,
     for<'x> L: Div<&'x R, Output = O>,
 {
